@@ -24,6 +24,10 @@ WORKERS_NOTE = ("Trusted: TLC/SANY, CPython threading, the controller harness/sc
                 "of workers.py is behind the queues or thread-local between two points; Thread.is_alive is made a scheduling point). "
                 "Liveness under weak fairness of non-timeout steps. The CLI Ctrl-C handler itself is exercised by C15's runs, not here.")
 
+REGION_NOTE = ("Trusted: TLC/SANY, CommunityModules, CPython, the bytes<->sample-id projection. View instants are three-decimal values (exact "
+               "rationals in the spec); within 1/20 sample of a truncation/rounding switch point any index within one sample period is accepted "
+               "(the tolerance the statement grants); exact ties of the stop are accepted either way.")
+
 CHECKS = {
     "C01": dict(
         text="TLC proves C01 on the implementation-shaped Tokenizer spec for every parameter tuple x validity stream of the tier "
@@ -118,6 +122,19 @@ CHECKS = {
              "random points; monitors: observers' logs, saved file = blocks read and valid wav, all threads ended.",
         ref="DESIGN.md 5/C14", technique="TLA+ model checking incl. liveness (TLC) + systematic stop injection into controlled real threads + trace validation",
         note=WORKERS_NOTE, cat="model_checking"),
+    "C16": dict(
+        text="Region.tla states slicing twice: implementation-shaped (byte offsets, unnormalised stop) and declarative (Python slicing on "
+             "samples); TLC checks them equal for every (length, bytes-per-sample, start, stop) of the bound and enumerates the seconds view "
+             "on an eighth-of-a-sample grid (truncated start, rounded stop; bounded nondeterminism only within 1/20 sample of a switch "
+             "point); one implementation test per case; seeded call sequences on real regions (sample / seconds / millis views, len, "
+             "duration, TypeError cases, millis view compared with the seconds view at t/1000) judged by TLC on RegionTrace.",
+        ref="DESIGN.md 5/C16", technique="TLA+ case enumeration (TLC) + one implementation test per case + trace validation", note=REGION_NOTE),
+    "C17": dict(
+        text="Region.tla: the division loop vs 'min(n,len) pieces differing by at most one whose concatenation is the original' checked by TLC "
+             "for every (length, divisor); concat / sum / repeat / join / silence / equality / parameter errors / frozen fields / ragged data "
+             "as actions of RegionTrace over a POOL of regions whose results feed later operations; after every call all pool members are "
+             "re-projected (operands unchanged).",
+        ref="DESIGN.md 5/C17", technique="TLA+ case enumeration (TLC) + trace validation of operation sequences over a region pool", note=REGION_NOTE),
     "C19": dict(
         text="Same Reader spec: invariants C19 (recorded data = consumed prefix, each sample once, never beyond max_read) and C19Replay "
              "(blocks after a rewind replay those before it); data before the first rewind and data/rewind on non-recording readers "
